@@ -7,6 +7,7 @@ import (
 	"encoding/json"
 	"flag"
 	"fmt"
+	"golang.org/x/tools/go/packages"
 	"os"
 	"os/exec"
 	"path/filepath"
@@ -239,6 +240,11 @@ func runConfig(prop *rules.Property, sp cfgSpec, tier, only string) (*an.Result,
 			rep.Notes = append(rep.Notes, "normalisation: "+n.Failed)
 		}
 	}
+	if p.Ren != nil {
+		for _, s := range p.Ren.Notes {
+			rep.Notes = append(rep.Notes, "rename: "+s)
+		}
+	}
 	rules.RunRules(prop, p, rep, sp.Scope, only)
 	return rep.ToResult(sp.name()), nil
 }
@@ -336,6 +342,7 @@ func cmdDump(args []string) int {
 func cmdDumpFuncs(args []string) int {
 	fs := flag.NewFlagSet("dump-funcs", flag.ExitOnError)
 	repo := fs.String("repo", "/repo", "")
+	typed := fs.Bool("typed", false, "print the typed inventory (signatures and struct fields) instead of the names")
 	fs.Parse(args)
 	var dirs []string
 	filepath.Walk(*repo, func(path string, fi os.FileInfo, err error) error {
@@ -353,6 +360,25 @@ func cmdDumpFuncs(args []string) int {
 	sort.Strings(dirs)
 	fmt.Println("# function inventory of the reviewed tree: helpers that are not listed here are inlined into their callers before analysis (see norm.go)")
 	fmt.Println("# regenerate with: sa dump-funcs -repo /repo > sa/internal/an/knownfuncs.txt")
+	if *typed {
+		for _, d := range dirs {
+			p, err := an.Load(an.Config{Dir: d, Patterns: []string{"./..."}, GOOS: "linux", GOARCH: "amd64", NoNorm: true})
+			if err != nil {
+				fmt.Fprintln(os.Stderr, "skipped:", err) // example modules with dependencies outside the module cache
+				continue
+			}
+			var roots []*packages.Package
+			for _, pk := range p.Pkgs {
+				if pk.Module != nil && pk.Module.Main {
+					roots = append(roots, pk)
+				}
+			}
+			for _, l := range an.InventoryLines(roots) {
+				fmt.Println(l)
+			}
+		}
+		return 0
+	}
 	for _, d := range dirs {
 		l, err := an.DeclaredFuncs(d)
 		if err != nil {
